@@ -17,9 +17,9 @@ def s2l(s):
     return [ord(c) for c in s]
 
 
-def make_app():
+def make_app(was_debug=None):
     from ombott import Ombott
-    app = Ombott({'max_body_size': 50})
+    app = Ombott({'max_body_size': 50, 'debug': True} if was_debug else {'max_body_size': 50})
 
     @app.route('/only-post/<x:path>', method='POST')
     def p(x):
@@ -66,6 +66,14 @@ def make_app():
     def hc():
         raise ValueError('boom ' + hooked.request.query_string)
     app.hooked = hooked
+    if was_debug:
+        # developed with debug on (pages with exception text and traceback were rendered), then switched off for production
+        for pth in ('/nowhere', '/crash', '/gencrash/x'):
+            call_app(app, base_environ(PATH_INFO=pth))
+        if was_debug == 'setup':
+            app.setup({'max_body_size': 50, 'debug': False})
+        else:
+            app.config.debug = False
     crit = Ombott()
 
     @crit.error(404)
@@ -104,7 +112,9 @@ def request(apps, kind, ch, payload, want_json):
     else:
         env['PATH_INFO'] = path.encode('utf8').decode('latin1')
     if want_json:
-        env['HTTP_ACCEPT'] = 'application/json'
+        # JSON asked for as clients do: bare, with a quality value or a parameter, first in a list
+        env['HTTP_ACCEPT'] = ['application/json', 'application/json;q=0.9, */*;q=0.1', 'application/json; charset=utf-8', 'application/json, text/plain, */*',
+                              'application/json;q=1.0, text/html;q=0.5'][(len(payload) + len(kind) + len(ch)) % 5]
     status, line, headers, body, nsr = call_app(the_app, env)
     ctype = dict(headers).get('Content-Type', '')
     text = body.decode('utf8', 'replace')
@@ -206,6 +216,14 @@ def run(chk):
                     recs.append(request(apps, kind, ch, pl, wj))
                     chk.count(1, ('hooked', kind, ch, pl, wj))
     request.use_hooked = False
+    # applications that ran with debug on for a while and were then switched off (both ways of doing that): debug is off NOW
+    for how in ('setup', 'attr'):
+        apps_d = make_app(was_debug=how)
+        for pl in ['<script>alert(1)</script>', '<b>', '"\'', 'plain', '{0}<u>']:
+            for kind in ('404', '405', '500', '500g'):
+                for ch in ('path', 'query', 'host'):
+                    recs.append(request(apps_d, kind, ch, pl, False))
+                    chk.count(1, ('was-debug', how, kind, ch, pl))
     recs += template_fault_records(chk)
     # JSON error documents with text that must be escaped in JSON but means nothing to HTML (control characters, backslash sequences)
     for pl in ['C:\\docs\\x', '\\d+', '\\', 'a\\', '\\"', '\tq', 'a\nb', '\x01', '\x1f', '\x7f', '\\u0041', '\\n', '"}', '", "x": "']:
